@@ -590,6 +590,9 @@ Definition mismatches := mismatches_from 0.
    (AccAddressFromBech32 cannot fail for the addresses of the model). *)
 Definition bid_validate_basic (id x : Z) : bool := negb (id =? 0) && (0 <=? x).
 
+(* ValidateBasic also refuses an empty bidder address ("bidder address cannot be
+   empty"); the keeper itself does not look at the address before moving coins. *)
 Definition msg_place_bid (e : env) (s : state) (t id : Z) (bidder d : nat) (x : Z) (parts : list Z)
   : outcome state unit :=
-  if bid_validate_basic id x then place_bid e s t id bidder d x parts else Err.
+  if Nat.eqb bidder (nobody e) then Err
+  else if bid_validate_basic id x then place_bid e s t id bidder d x parts else Err.
